@@ -9,7 +9,8 @@ CONSTANTS
   RNow = 2
   MaxLen = 2
   MaxNum = 2
+  FullKeys = {1}
   Dup = TRUE
   TCmds <- CmdsH
-INVARIANTS TypeOK ErrorChangesNothing ReadsChangeNothing KeysIndependent CountsAgree ExpiredIsDead OverwriteClearsExpiry ModifyKeepsExpiry NewGenerationIsEmpty TTLIsRemaining LocalDeletion
+INVARIANTS TypeOK ReadsChangeNothing CountsAgree ExpiredIsDead OverwriteClearsExpiry ModifyKeepsExpiry NewGenerationIsEmpty TTLIsRemaining LocalDeletion
 CHECK_DEADLOCK FALSE
